@@ -123,6 +123,14 @@ func (f *formatter) result() string {
 	return f.sb.String()
 }
 
+// nestedOptions returns the options for a statement that is part of another one (CTE body, set
+// operation operand, INSERT ... SELECT query, view query, subquery): only the outermost statement
+// is terminated with a semicolon.
+func nestedOptions(opts FormatOptions) FormatOptions {
+	opts.AddSemicolon = false
+	return opts
+}
+
 // Format returns the formatted SQL for the full AST.
 func (a AST) Format(opts FormatOptions) string {
 	parts := make([]string, 0, len(a.Statements))
@@ -303,7 +311,7 @@ func (i *InsertStatement) Format(opts FormatOptions) string {
 	if i.Query != nil {
 		sb.WriteString(f.clauseSep())
 		if fq, ok := i.Query.(Formatter); ok {
-			sb.WriteString(fq.Format(opts))
+			sb.WriteString(fq.Format(nestedOptions(opts)))
 		} else {
 			sb.WriteString(stmtSQL(i.Query))
 		}
@@ -544,7 +552,7 @@ func (s *SetOperation) Format(opts FormatOptions) string {
 
 	if s.Left != nil {
 		if ls, ok := s.Left.(Formatter); ok {
-			sb.WriteString(ls.Format(opts))
+			sb.WriteString(ls.Format(nestedOptions(opts)))
 		} else {
 			sb.WriteString(stmtSQL(s.Left))
 		}
@@ -558,7 +566,7 @@ func (s *SetOperation) Format(opts FormatOptions) string {
 	sb.WriteString(f.clauseSep())
 	if s.Right != nil {
 		if rs, ok := s.Right.(Formatter); ok {
-			sb.WriteString(rs.Format(opts))
+			sb.WriteString(rs.Format(nestedOptions(opts)))
 		} else {
 			sb.WriteString(stmtSQL(s.Right))
 		}
@@ -709,7 +717,7 @@ func (c *CreateViewStatement) Format(opts FormatOptions) string {
 	sb.WriteString(f.kw("AS"))
 	sb.WriteString(f.clauseSep())
 	if qs, ok := c.Query.(Formatter); ok {
-		sb.WriteString(qs.Format(opts))
+		sb.WriteString(qs.Format(nestedOptions(opts)))
 	} else {
 		sb.WriteString(stmtSQL(c.Query))
 	}
@@ -759,7 +767,7 @@ func (c *CreateMaterializedViewStatement) Format(opts FormatOptions) string {
 	sb.WriteString(f.kw("AS"))
 	sb.WriteString(f.clauseSep())
 	if qs, ok := c.Query.(Formatter); ok {
-		sb.WriteString(qs.Format(opts))
+		sb.WriteString(qs.Format(nestedOptions(opts)))
 	} else {
 		sb.WriteString(stmtSQL(c.Query))
 	}
@@ -1077,7 +1085,7 @@ func (i *InExpression) Format(opts FormatOptions) string {
 	sb.WriteString(f.kw("IN"))
 	sb.WriteString(" (")
 	if i.Subquery != nil {
-		sb.WriteString(formatStmt(i.Subquery, opts))
+		sb.WriteString(formatStmt(i.Subquery, nestedOptions(opts)))
 	} else {
 		parts := make([]string, len(i.List))
 		for idx, e := range i.List {
@@ -1100,7 +1108,7 @@ func (e *ExistsExpression) Format(opts FormatOptions) string {
 
 	sb.WriteString(f.kw("EXISTS"))
 	sb.WriteString(" (")
-	sb.WriteString(formatStmt(e.Subquery, opts))
+	sb.WriteString(formatStmt(e.Subquery, nestedOptions(opts)))
 	sb.WriteString(")")
 
 	return f.result()
@@ -1115,7 +1123,7 @@ func (s *SubqueryExpression) Format(opts FormatOptions) string {
 	sb := f.sb
 
 	sb.WriteString("(")
-	sb.WriteString(formatStmt(s.Subquery, opts))
+	sb.WriteString(formatStmt(s.Subquery, nestedOptions(opts)))
 	sb.WriteString(")")
 
 	return f.result()
@@ -1141,7 +1149,7 @@ func formatWith(w *WithClause, f *formatter) string {
 		}
 		s += f.kw("AS") + " ("
 		if qs, ok := cte.Statement.(Formatter); ok {
-			s += qs.Format(f.opts)
+			s += qs.Format(nestedOptions(f.opts))
 		} else {
 			s += stmtSQL(cte.Statement)
 		}
